@@ -11,6 +11,8 @@ from typing import Any
 
 from vp import core
 
+from props import c08_floats as FC
+
 META = {
     "title": "Attribute equality and hashing form a consistent value semantics",
     "category": "proof",
@@ -28,7 +30,19 @@ META = {
         "tied to /repo by encoding every generated attribute (all builtin kinds with float corner cases, dialect "
         "attributes printed from the .mlir corpus and re-parsed in two fresh Contexts, UnregisteredAttr classes "
         "built twice, CSE OperationInfo of generated ops), each built twice, and comparing Python ==/hash== with "
-        "the model verdicts on all pairs of every group, next to a direct oracle of the property sentence."
+        "the model verdicts on all pairs of every group, next to a direct oracle of the property sentence.  "
+        "Hash equality is kept apart from equality: the model hash is exact where CPython collides systematically "
+        "(pyIntHash), theorems hash_collision_ne / hash_collision_mersenne_ne / OpInfo.hash_collision_ne / "
+        "OpInfo.eq_refines / HashOnly.opInfoEq_counterexample show that colliding payloads under any nesting hash "
+        "equally, are unequal, and that a CSE key comparison trusting the hash merges arith.constant -1 and -2; the "
+        "harness finds the colliding attribute pairs of every payload kind by bucketing candidates by their real hash() "
+        "and builds operations differing only in such values (attributes, properties, result types), checked on "
+        "OperationInfo and on the KnownOps dictionary.  The hand-written bf16 encoder is modelled (bf16Encode) with "
+        "theorems bf16Encode_nan_sign / _nan_is_nan / _nan_payload / _decode / _nearest and tied line by line; every "
+        "packable float type is compared bit-exactly with an independent codec (harness/props/c08_floats.py: formats "
+        "written down from the APFloat definitions, exact rational rounding) through unpack / iter_unpack / pack / "
+        "pack_into / FloatAttr / DenseArrayBase.from_list / DenseIntOrFPElementsAttr.from_list / dense and array "
+        "literals with hexadecimal elements / raw dense strings."
     ),
     "technique": "Lean 4 proofs over a tree model of attribute values + all-pairs differential correspondence with real attributes",
     "level_note": (
@@ -44,7 +58,14 @@ META = {
         "IRDL dialects. Additional direct checks per generated attribute: hash()/== must not raise, no payload container may be a "
         "bytearray/list/dict/set, and a FloatAttr must hold type.unpack(type.pack(parameter)) recomputed without shared state "
         "(history independence of construction; the first construction order per type inside one process is fixed by the generator, "
-        "a cache warmed before the check starts is not controlled)."
+        "a cache warmed before the check starts is not controlled). Independent float codec: exact for zeros, finite values "
+        "(nearest, ties to even, double rounding through binary32 for bf16 as documented), infinities, overflow; NaN contract per family: "
+        "f64 bit for bit; f32 and bf16 keep the sign and the leading payload bits with the quiet bit set (C conversion / the documented "
+        "`quiet-NaN preservation; matches LLVM APFloat` of BFloat16Type._encode); f16 keeps the sign with the canonical payload (CPython "
+        "PyFloat_Pack2); the APFloat-described reduced formats (tf32, f8*, f6*, f4*) carry NaN as the canonical math.nan, so any NaN pattern "
+        "of the format is admitted there and nothing is demanded of NaN / zero parameters where the format has no NaN / no zero; f80 / f128 "
+        "are not packable (no codec). Sequence parameters are handed over as list / tuple / generator / ArrayAttr where the constructor "
+        "converts its argument (TupleType, FusedLoc, ArrayAttr)."
     ),
     "rule": (
         "A case is an ordered pair (i<j) of attribute (or op) objects inside one group; every recipe of a group is "
@@ -60,16 +81,25 @@ META = {
         "f8*/f6*/f4*) is enumerated: FloatAttr via constructor and via parser (decimal / hex literals) with both signed "
         "zeros in both construction orders (which zero and which route is first in the process alternates per type), "
         "reserved encodings, overflow/underflow parameters; dense arrays / dense elements over each element type via "
-        "from_list, list literals and hex strings."
+        "from_list, list literals and hex strings. Hash-collision families: attribute recipes of every payload kind with "
+        "systematically colliding CPython hashes (ints -1/-2 and v + k(2^61-1) for every integer type with twins, IntAttr, arrays / "
+        "dictionaries / dense arrays of them, integral floats next to ints, empty buffers and containers), paired by real hash() "
+        "bucket; operations differing only in such a pair as attribute / property / arith.constant value / swapped across two keys / "
+        "result type. Float codec leg: per packable float type all bit patterns up to 8 bits (16 bits: the whole exponent-all-ones "
+        "region + corners + sample in quick, all in thorough), parameters = NaNs of both signs with quiet / signalling / high / low-only "
+        "payloads, infinities, zeros, rounding midpoints and neighbours, overflow thresholds, random. Sequence-argument kinds family."
     ),
     "trusted_base": [
         "correspondence harness harness/props/c08.py (encoder of attribute objects into model terms; all-pairs differential)",
         "hand-written Lean model XdslModel/AttrValue.lean of dataclass eq/hash, FloatData (fixed) and OperationInfo",
         "assumption: no accidental SipHash / tuple-hash collisions (Python-only collisions are counted, never failed)",
+        "independent float codec harness/props/c08_floats.py (format table by MLIR type name, exact rational rounding, NaN contract per family)",
     ],
     "assumptions": [
         "CPython: dataclass(frozen=True, eq=True) __eq__ is class identity + field-tuple ==; __hash__ is hash of the field tuple",
         "CPython 64-bit int hash = value mod (2^61-1) with sign, -1 -> -2; str hash is the hash of its PEP 393 buffer",
+        "the C conversions double<->float of this platform keep the sign and the leading payload bits of a NaN and set the quiet bit "
+        "(struct.pack('<f') / unpack); PyFloat_Pack2 gives sign | 0x7E00 for NaN; struct raises OverflowError for finite values beyond f16 / f32",
     ],
     "budget": {"quick": 100, "thorough": 1200},
 }
@@ -89,6 +119,8 @@ CONSTRUCTOR_OF = {
     "array": "xdsl.dialects.builtin.ArrayAttr.__init__",
     "dict": "xdsl.dialects.builtin.DictionaryAttr.__init__",
     "bytes": "xdsl.dialects.builtin.BytesAttr",
+    "tuple": "xdsl.dialects.builtin.TupleType",
+    "fusedloc": "xdsl.dialects.builtin.FusedLoc",
 }
 
 # ---------------------------------------------------------------------------------------------
@@ -190,6 +222,21 @@ def parse_attr_fresh(text: str):
     return a
 
 
+def as_kind(xs: list[Any], kind: str, array_ok: bool = True) -> Any:
+    """the same sequence of attributes as a list / tuple / generator / ArrayAttr argument"""
+    from xdsl.dialects.builtin import ArrayAttr
+
+    if kind == "list":
+        return list(xs)
+    if kind == "tuple":
+        return tuple(xs)
+    if kind == "gen":
+        return (x for x in xs)
+    if kind == "array" and array_ok:
+        return ArrayAttr(xs)
+    raise core.InfraError(f"unknown argument kind {kind}")
+
+
 def build(r: Any):
     """Build the real attribute described by recipe `r` (a JSON list). Every call constructs afresh."""
     from xdsl.dialects import builtin as b
@@ -217,7 +264,13 @@ def build(r: Any):
     if k == "fn":
         return b.FunctionType.from_lists([build(x) for x in r[1]], [build(x) for x in r[2]])
     if k == "tuple":
-        return b.TupleType(tuple(build(x) for x in r[1]))
+        return b.TupleType(as_kind([build(x) for x in r[1]], r[2] if len(r) > 2 else "tuple"))
+    if k == "fusedloc":
+        return b.FusedLoc(as_kind([build(x) for x in r[1]], r[2] if len(r) > 2 else "tuple"), build(r[3]) if len(r) > 3 else b.NoneAttr())
+    if k == "loc":
+        return b.UnknownLoc() if r[1] == "unknown" else b.FileLineColLoc(b.StringAttr(r[1]), b.IntAttr(r[2]), b.IntAttr(r[3]))
+    if k == "fnattrs":
+        return b.FunctionType.from_attrs(b.ArrayAttr([build(x) for x in r[1]]), b.ArrayAttr([build(x) for x in r[2]]))
     if k == "complex":
         return b.ComplexType(build(r[1]))
     if k == "int":
@@ -235,7 +288,7 @@ def build(r: Any):
     if k == "unit":
         return b.UnitAttr()
     if k == "array":
-        return b.ArrayAttr([build(x) for x in r[1]])
+        return b.ArrayAttr(as_kind([build(x) for x in r[1]], r[2] if len(r) > 2 else "list", array_ok=False))
     if k == "dict":
         return b.DictionaryAttr({key: build(x) for key, x in r[1]})
     if k == "densearr":
@@ -329,27 +382,65 @@ def type_pattern_values(ty: Any, thorough: bool) -> list[int]:
     return out
 
 
+def float_param(r: Any) -> tuple[Any, float] | None:
+    """(type, Python float handed to FloatAttr.__init__) of a float recipe"""
+    if r[0] == "float":
+        return build(r[2]), float_of(int(r[1], 16))
+    if r[0] == "floattext":
+        from xdsl.dialects import builtin as b
+
+        ty = getattr(b, r[2])()
+        lit = r[1]
+        if lit[:2].lower() == "0x":
+            return ty, ty.unpack(int(lit, 16).to_bytes(ty.compile_time_size, "little"), 1)[0]
+        return ty, float(lit)
+    return None
+
+
 def expected_float(r: Any) -> tuple[Any, float] | None:
     """(type, value the attribute must hold) for a float recipe, recomputed through the type's own
     pack/unpack (no shared state); None when not applicable or the parameters are rejected."""
     try:
-        if r[0] == "float":
-            ty = build(r[2])
-            x = float_of(int(r[1], 16))
-        elif r[0] == "floattext":
-            from xdsl.dialects import builtin as b
-
-            ty = getattr(b, r[2])()
-            lit = r[1]
-            if lit[:2].lower() == "0x":
-                x = ty.unpack(int(lit, 16).to_bytes(ty.compile_time_size, "little"), 1)[0]
-            else:
-                x = float(lit)
-        else:
+        tx = float_param(r)
+        if tx is None:
             return None
+        ty, x = tx
         if rounds_on_construction(ty):
             x = ty.unpack(ty.pack((x,)), 1)[0]
         return ty, x
+    except Exception:  # noqa: BLE001
+        return None
+
+
+def independent_float(r: Any) -> tuple[Any, FC.Fmt, int, FC.Enc, FC.Dec | None] | None:
+    """(type, format, parameter bits, admissible encodings, value to hold) of a float recipe by the
+    independent codec (harness/props/c08_floats.py; nothing of the type's own pack/unpack except the
+    decoding of a hexadecimal literal, which the codec leg checks pattern by pattern)"""
+    try:
+        if r[0] == "floattext" and r[1][:2].lower() == "0x":
+            from xdsl.dialects import builtin as b
+
+            ty = getattr(b, r[2])()
+            fmt = FC.FORMATS.get(ty.name)
+            if fmt is None or fmt.width != ty.bitwidth:
+                return None
+            d = FC.decode(fmt, int(r[1], 16))
+            if d.bits is None:
+                return None
+            xb = d.bits
+        else:
+            tx = float_param(r)
+            if tx is None:
+                return None
+            ty, x = tx
+            fmt = FC.FORMATS.get(ty.name)
+            if fmt is None or fmt.width != ty.bitwidth:
+                return None
+            xb = bits_of(x)
+        if not rounds_on_construction(ty):
+            return None
+        enc, dec = FC.stored_after_construction(fmt, xb)
+        return ty, fmt, xb, enc, dec
     except Exception:  # noqa: BLE001
         return None
 
@@ -359,6 +450,69 @@ def type_encoding(ty: Any, x: float) -> str | None:
         return bytes(ty.pack((x,))).hex()
     except Exception:  # noqa: BLE001
         return None
+
+
+def param_class(xb: int) -> str:
+    if FC.is_nan64(xb):
+        return "NaN"
+    if FC.is_inf64(xb):
+        return "infinity"
+    if xb & ((1 << 63) - 1) == 0:
+        return "zero"
+    return "finite value"
+
+
+def encoding_defect(fmt: FC.Fmt, xb: int, enc: FC.Enc, got: Any) -> str:
+    """short stable class of a wrong encoding; `got` = int pattern or exception class name"""
+    pc = param_class(xb)
+    if isinstance(got, str):
+        return f"{pc}: raises {got}"
+    if enc.raises:
+        return f"{pc}: {enc.raises} expected, a pattern is returned"
+    if pc == "NaN":
+        if not FC.is_nan_pattern(fmt, got):
+            return "NaN encoded as a non-NaN pattern"
+        want = enc.exact
+        if want is not None and fmt.has_sign and (got ^ want) >> (fmt.e + fmt.m) & 1:
+            return "NaN sign not kept"
+        return "NaN payload not kept"
+    want = enc.exact
+    if want is not None and fmt.has_sign and (got ^ want) == 1 << (fmt.e + fmt.m):
+        return f"{pc}: sign not kept"
+    return f"{pc}: not the nearest representable value (ties to even) / wrong special-value handling"
+
+
+def qual_type(ty: Any) -> str:
+    return f"{type(ty).__module__}.{type(ty).__qualname__}"
+
+
+def own_pack(ty: Any, x: float) -> Any:
+    try:
+        return int.from_bytes(bytes(ty.pack((x,))), "little")
+    except Exception as e:  # noqa: BLE001
+        return core.exc_name(e)
+
+
+def blame_float(ty: Any, fmt: FC.Fmt, xb: int, enc: FC.Enc, held_bits: int | None) -> tuple[str, str, dict]:
+    """which of pack / unpack / FloatAttr.__init__ is at fault for a wrongly stored value"""
+    got = own_pack(ty, float_of(xb))
+    obs: dict[str, Any] = {"parameter_f64_bits": hx(xb), "type.pack": hex(got) if isinstance(got, int) else got,
+                           "independent_encoding": sorted(hex(p) for p in enc.pats)[:8] if enc.pats is not None else (enc.raises or FC.ANY),
+                           "rule": enc.why}
+    ok = (isinstance(got, str) and enc.raises == got) or (isinstance(got, int) and enc.raises is None and enc.admits(got))
+    if not ok:
+        return qual_type(ty) + ".pack", encoding_defect(fmt, xb, enc, got), obs
+    if isinstance(got, int):
+        try:
+            back = bits_of(ty.unpack(got.to_bytes(ty.compile_time_size, "little"), 1)[0])
+            obs["type.unpack(type.pack)"] = hx(back)
+            if not FC.decode(fmt, got).admits(back):
+                return qual_type(ty) + ".unpack", "pattern decoded to a different value", obs
+        except Exception as e:  # noqa: BLE001
+            return qual_type(ty) + ".unpack", f"raises {core.exc_name(e)}", obs
+    if held_bits is not None:
+        obs["held_f64_bits"] = hx(held_bits)
+    return FLOATATTR_INIT, "stored value is not decode(encode(parameter)) of the type's format", obs
 
 
 MUTABLE = (bytearray, list, dict, set)
@@ -628,7 +782,7 @@ def diagnose(a: Any, b: Any, what: str, nenc: Encoder) -> tuple[str, str]:
 
 def sub_recipes(r: Any) -> list[Any]:
     k = r[0]
-    if k in ("array", "tuple"):
+    if k in ("array", "tuple", "fusedloc"):
         return list(r[1])
     if k == "dict":
         return [x for _, x in r[1]]
@@ -777,6 +931,38 @@ def eval_group(ctx: core.Ctx, label: str, recipes: list[Any], batch: Batch) -> N
                      {"a": describe(objs[i]), "held_f64_bits": hx(hb), "held_type_encoding": type_encoding(ty, have),
                       "expected_f64_bits": hx(wb), "expected_type_encoding": type_encoding(ty, want)},
                      "value == type.unpack(type.pack(parameter))")
+    # the same by the independent codec of the float formats (not the type's own pack/unpack)
+    IXP: list[Any] = [None] * n
+    IBAD: set[int] = set()
+    for i in range(n):
+        if recs[i][0] not in ("float", "floattext") or twin[i] < i:
+            continue
+        ind = independent_float(recs[i])
+        if ind is None:
+            continue
+        ty, fmt, xb, enc, dec = ind
+        ctx.count("float_attrs_checked_by_independent_codec")
+        try:
+            hb = bits_of(objs[i].value.data)
+        except Exception:  # noqa: BLE001
+            continue
+        if enc.raises:
+            site, sig, obs = blame_float(ty, fmt, xb, enc, hb)
+            if site.endswith(".pack"):
+                ctx.fail(site, sig, {"kind": "float_codec", "type": type(ty).__name__, "route": "pack", "param": hx(xb)},
+                         "the type encodes a parameter that its format cannot hold", obs, enc.raises)
+            continue
+        if dec is None:
+            continue
+        IXP[i] = IXP[twin[i]] = (fmt.name, dec.bits)
+        if not dec.admits(hb):
+            IBAD.update((i, twin[i]))
+            site, sig, obs = blame_float(ty, fmt, xb, enc, hb)
+            ctx.fail(site, sig, {"kind": "attr_value", "a": recs[i], "check": "float-codec"},
+                     "the float attribute built from these parameters does not hold the value that the format of its type gives for them "
+                     "(independent codec: nearest-even rounding, signed zeros, infinities, NaN sign/payload)",
+                     dict(obs, a=describe(objs[i]), held_f64_bits=hx(hb)),
+                     "held bits " + (hx(dec.bits) if dec.bits is not None else "of a NaN"))
     NT = [safe_term(nenc, o) for o in objs]
     MT = [safe_term(menc, o) for o in objs]
     for o, t in zip(objs, MT):
@@ -833,6 +1019,15 @@ def eval_group(ctx: core.Ctx, label: str, recipes: list[Any], batch: Batch) -> N
                 ctx.fail(FLOATATTR_INIT, sig, pair_case(recs[i], recs[j], {"check": "equal-but-distinct-parameters"}),
                          "two float attributes of one type whose parameters encode differently in that type compare equal",
                          {"a": describe(objs[i]), "b": describe(objs[j]), "encoding_a": XP[i][2], "encoding_b": XP[j][2]}, "a != b")
+            if (E[i][j] and i not in IBAD and j not in IBAD and IXP[i] is not None and IXP[j] is not None and IXP[i][0] == IXP[j][0] and IXP[i][1] is not None
+                    and IXP[j][1] is not None and IXP[i][1] != IXP[j][1]):
+                x, y = IXP[i][1], IXP[j][1]
+                sig = ("0.0 and -0.0 compare equal" if (x | y) == 1 << 63 and x != y else
+                       "NaNs the type distinguishes compare equal" if FC.is_nan64(x) and FC.is_nan64(y) else
+                       "float attributes built from observably different parameters compare equal")
+                ctx.fail(FLOATATTR_INIT, sig, pair_case(recs[i], recs[j], {"check": "equal-but-distinct-parameters"}),
+                         "two float attributes of one type compare equal although the format of the type keeps their parameters apart "
+                         "(independent codec)", {"a": describe(objs[i]), "b": describe(objs[j]), "must_hold_a": hx(x), "must_hold_b": hx(y)}, "a != b")
             if i in broken or j in broken:
                 continue
             if E[i][j] and H[i] != H[j] and j != twin[i]:
@@ -887,6 +1082,11 @@ def compare_with_model(ctx: core.Ctx, batch: Batch, model_name: str = "attr_valu
     model = ctx.model(model_name, batch.lines)
     ctx.count("model_lines", len(batch.lines))
     for k, (imp, mod) in enumerate(zip(batch.impl, model)):
+        if imp is None:
+            # model-only probe: would a comparison that trusts the hash merge this pair of unequal ops?
+            if mod == "eq 1":
+                ctx.count("op_pairs_a_hash_trusting_comparison_would_merge")
+            continue
         if imp == mod:
             continue
         if imp.startswith("eq 0 heq 1") and mod.startswith("eq 0 heq 0"):
@@ -1001,6 +1201,15 @@ def fixed_groups() -> list[tuple[str, list[Any]]]:
                                   ["fn", [["f64"]], []], ["tuple", []], ["tuple", [["f32"]]], ["tuple", [["f32"], ["f32"]]], ["tuple", [["tuple", []]]],
                                   ["complex", ["f32"]], ["complex", ["f64"]], ["complex", ["i", 32, "signless"]], ["array", []], ["array", [["f32"]]],
                                   ["tensor", [-1], ["f32"]], ["tensor", [1], ["f32"]], ["tensor", [1], ["complex", ["f32"]]], ["unit"], ["nonetype"], ["dict", []]]))
+    # the same sequence parameter handed over as list / tuple / generator / ArrayAttr: one value, one hash
+    f32r, i32r, i64r = ["f32"], ["i", 32, "signless"], ["i", 64, "signless"]
+    seqs = [[], [f32r], [i32r, i64r]]
+    locs = [[["loc", "unknown"]], [["loc", "unknown"], ["loc", "f.mlir", 1, 2]]]
+    g.append(("ctor.sequence_argument_kinds",
+              [["tuple", q, kd] for q in seqs for kd in ("tuple", "list", "array", "gen")]
+              + [["array", q, kd] for q in seqs for kd in ("list", "tuple", "gen")]
+              + [["fusedloc", q, kd] for q in locs for kd in ("tuple", "list", "array", "gen")]
+              + [["fn", q, q] for q in seqs] + [["fnattrs", q, q] for q in seqs]))
     # unregistered attributes: class factory called once per build
     g.append(("unregistered", [["unreg", "foo.bar", 0, 0, "1"], ["unreg", "foo.bar", 0, 0, "2"], ["unreg", "foo.baz", 0, 0, "1"], ["unreg", "foo.bar", 1, 0, "1"],
                                ["unreg", "foo.bar", 0, 1, "1"], ["unreg", "foo.bar", 0, 0, ""], ["parse", "#foo.bar<1>"], ["parse", "!foo.bar<1>"],
@@ -1336,6 +1545,118 @@ def op_groups(rng, n_random: int) -> list[tuple[str, list[Any]]]:
     return g
 
 
+def hash_twin_ints(w: int, sg: str) -> list[int]:
+    """values of an integer type that fall into few classes of CPython's int hash
+    (hash(v) = sign(v) * (|v| mod (2^61 - 1)), and -1 -> -2): every class has several members"""
+    if sg == "unsigned":
+        lo, hi = 0, (1 << w) - 1
+    elif sg == "signed":
+        lo, hi = -(1 << (w - 1)), (1 << (w - 1)) - 1
+    else:
+        lo, hi = -(1 << (w - 1)), (1 << w) - 1
+    out = []
+    for base in (0, 1, -1, -2, 5, -5):
+        for k in range(0, 4):
+            v = base + k * M61 if base >= 0 else base - k * M61
+            if lo <= v <= hi and v not in out:
+                out.append(v)
+    return out
+
+
+def collision_candidates() -> list[Any]:
+    """attribute recipes of every payload kind in which CPython hashes collide systematically: ints (IntAttr,
+    IntegerAttr of every width that has twins, BoolAttr-like i1), tuples / arrays / dictionaries of them,
+    dense integer arrays, floats of integral value next to the ints of the same value (hash(1.0) == hash(1)),
+    signed zeros (hash(0.0) == hash(-0.0) if a float is hashed by value), strings / bytes sharing a buffer"""
+    c: list[Any] = []
+    ity = [["i", 1, "signless"], ["i", 8, "signless"], ["i", 32, "signless"], ["i", 64, "signless"], ["i", 64, "signed"], ["i", 64, "unsigned"],
+           ["i", 128, "signless"], ["index"]]
+    for t in ity:
+        w = 64 if t == ["index"] else t[1]
+        sg = "signed" if t == ["index"] else t[2]
+        c += [["int", v, t] for v in hash_twin_ints(w, sg)]
+    iv = [0, 1, -1, -2, 5, -5, M61, M61 + 1, -M61 - 1, -M61 - 2, 2 * M61, 2 * M61 + 5, -M61 - 5, 1 << 61, -(1 << 61)]
+    c += [["intattr", v] for v in iv]
+    c += [["array", [["intattr", v]]] for v in iv[:10]]
+    c += [["array", [["intattr", v], ["intattr", u]]] for v in (0, M61) for u in (-1, -2)]
+    c += [["array", [["int", v, ["i", 32, "signless"]]]] for v in (-1, -2, 0)]
+    c += [["dict", [["x", ["int", v, ["i", 64, "signless"]]]]] for v in (-1, -2, 0, M61)]
+    c += [["densearr", ["i", 64, "signless"], [v]] for v in (-1, -2, 0, M61)]
+    for v in (0.0, -0.0, 1.0, -1.0, -2.0, 2.0, float(1 << 61), float((1 << 61) - 1)):
+        c += [["fdata", hx(bits_of(v))], ["float", hx(bits_of(v)), ["f64"]], ["float", hx(bits_of(v)), ["f32"]]]
+    c += [["float", hx(b), ["f64"]] for b in (0x7FF8000000000000, 0xFFF8000000000000, 0x7FF8000000000001)]
+    c += [["str", s_] for s_ in ("", "a", "\x00")] + [["bytes", h] for h in ("", "61", "00")] + [["unit"], ["tuple", []], ["array", []], ["dict", []]]
+    return c
+
+
+def colliding_pairs(ctx: core.Ctx, limit: int, per_kind_cap: int = 6) -> list[tuple[Any, Any]]:
+    """pairs of unequal-by-payload attribute recipes whose REAL hashes coincide (found by bucketing the
+    candidates by hash(), so the family follows whatever hashing the implementation uses)"""
+    enc = Encoder(False)
+    buckets: dict[int, list[tuple[Any, str]]] = {}
+    for r in collision_candidates():
+        try:
+            a = build(r)
+            h = hash(a)
+            t = safe_term(enc, a)
+        except Exception:  # noqa: BLE001
+            continue
+        if t is None:
+            continue
+        buckets.setdefault(h, []).append((r, t))
+    pairs: list[tuple[Any, Any]] = []
+    per_kind: dict[str, int] = {}
+    for h in sorted(buckets):
+        mem = buckets[h]
+        for i in range(len(mem)):
+            for j in range(i + 1, len(mem)):
+                if mem[i][1] == mem[j][1]:
+                    continue
+                kind = f"{mem[i][0][0]}/{mem[j][0][0]}"
+                if per_kind.get(kind, 0) >= per_kind_cap:
+                    continue
+                per_kind[kind] = per_kind.get(kind, 0) + 1
+                pairs.append((mem[i][0], mem[j][0]))
+    for k, v in per_kind.items():
+        ctx.count(f"hash_colliding_pairs.{k}", v)
+    ctx.rng.shuffle(pairs)
+    pairs.sort(key=lambda ab: ab[0][0] != "int")   # typed integers first (they can be arith.constant values)
+    return pairs[:limit]
+
+
+def collision_op_groups(ctx: core.Ctx, limit: int) -> list[tuple[str, list[Any]]]:
+    """OperationInfo of operations that differ ONLY in attribute / property values with equal hashes: the
+    hash in front of OperationInfo.__eq__ cannot tell them apart, the value comparison must"""
+    i32 = ["i", 32, "signless"]
+    g: list[tuple[str, list[Any]]] = []
+    pairs = colliding_pairs(ctx, limit, 6 if limit <= 64 else 40)
+    ctx.count("hash_colliding_pairs", len(pairs))
+    # result types whose hashes collide (shapes are tuples of IntAttr)
+    f32 = ["f32"]
+    tys = [[c, sh, f32] for c in ("tensor", "vector", "memref") for sh in ([0], [M61], [1], [M61 + 1], [2, 0], [2, M61])]
+    g.append(("op.hash_collisions.result_types", [["op", "test", [], [], [t], [0]] for t in tys] + [["op", "unreg:foo.bar", [], [], [t, t], []] for t in tys[:6]]))
+    for k in range(0, len(pairs), 2):
+        rec: list[Any] = []
+        for x, y in pairs[k:k + 2]:
+            for v in (x, y):
+                rec.append(["op", "test", [["k", v]], [], [i32], [0]])
+                rec.append(["op", "test", [], [["prop1", v]], [i32], [0]])
+                rec.append(["op", "unreg:foo.bar", [["k", v]], [], [i32], []])
+                if v[0] in ("int", "float"):
+                    rec.append(["op", "arith.constant", [], [["value", v]], [], []])
+            rec.append(["op", "test", [["a", x], ["b", y]], [], [i32], [0]])
+            rec.append(["op", "test", [["a", y], ["b", x]], [], [i32], [0]])
+            rec.append(["op", "test", [["a", x]], [["prop1", y]], [i32], [0]])
+            rec.append(["op", "test", [["a", y]], [["prop1", x]], [i32], [0]])
+        g.append(("op.hash_collisions", rec))
+    return g
+
+
+def collision_attr_groups() -> list[tuple[str, list[Any]]]:
+    c = collision_candidates()
+    return [("attr.hash_collisions", c[k:k + 40]) for k in range(0, len(c), 40)]
+
+
 def op_pool():
     from xdsl.dialects.builtin import Float32Type, IntegerType
     from xdsl.ir import Block
@@ -1361,7 +1682,7 @@ def op_observation(op: Any, pool: list[Any], enc: Encoder) -> dict[str, Any] | N
 
 
 def eval_op_group(ctx: core.Ctx, label: str, recipes: list[Any], batch: Batch) -> None:
-    from xdsl.transforms.common_subexpression_elimination import OperationInfo
+    from xdsl.transforms.common_subexpression_elimination import KnownOps, OperationInfo
 
     blk, pool = op_pool()
     menc, nenc = Encoder(True), Encoder(False)
@@ -1429,6 +1750,20 @@ def eval_op_group(ctx: core.Ctx, label: str, recipes: list[Any], batch: Batch) -
                 ctx.fail(site_sig[0], site_sig[1], case(i, j, "equal-but-distinct"),
                          "OperationInfo equal for ops whose attribute payloads differ observably (CSE would merge them)",
                          {"a": NO[i], "b": NO[j]}, "not equal")
+            if H[i] == H[j] and NO[i] is not None and NO[j] is not None:
+                # the CSE cache itself (a dict keyed by OperationInfo): the hash bucket is shared, the lookup must still tell the ops apart
+                known = KnownOps()
+                known[ops[i]] = ops[i]
+                hit = known.get(ops[j]) is not None or ops[j] in known
+                ctx.count("known_ops_lookups_in_shared_hash_bucket")
+                if hit and NO[i] != NO[j]:
+                    site_sig = blame(i, j, "equal-but-distinct") or (OPINFO + ".__eq__", "ops with observably different payload compare equal")
+                    ctx.fail(site_sig[0], site_sig[1], case(i, j, "equal-but-distinct"),
+                             "the CSE cache (KnownOps) returns an operation with observably different attribute payloads for this one",
+                             {"a": NO[i], "b": NO[j]}, "no hit")
+                if not hit and recs[i] == recs[j]:
+                    ctx.fail(OPINFO + ".__eq__", "ops built from the same parameters are not equal", case(i, j, "same-construction"),
+                             "the CSE cache (KnownOps) misses an identical operation", None, "hit")
             if E[i][j] or (NO[i] and NO[j] and NO[i]["name"] == NO[j]["name"]):
                 ctx.nt(hash(("op", str(NO[i]), str(NO[j]))))
     rows = [frozenset(j for j in range(n) if E[i][j]) for i in range(n)]
@@ -1472,6 +1807,10 @@ def eval_op_group(ctx: core.Ctx, label: str, recipes: list[Any], batch: Batch) -
                 batch.lines.append(f"cmpop {idx[i]} {idx[j]}")
                 batch.impl.append(f"eq {int(E[i][j])} heq {int(H[i] == H[j])}")
                 batch.origin.append(("cmpop", recs[i], recs[j]))
+                if H[i] == H[j] and not E[i][j]:
+                    batch.lines.append(f"cmpophash {idx[i]} {idx[j]}")
+                    batch.impl.append(None)
+                    batch.origin.append(None)
     del blk
 
 
@@ -1533,6 +1872,241 @@ def resource_leg(ctx: core.Ctx, maxlen: int, nrandom: int) -> None:
 
 
 # ---------------------------------------------------------------------------------------------
+# every constructor route of every float type against the independent codec
+# ---------------------------------------------------------------------------------------------
+
+def codec_case(ty: Any, route: str, **kw: Any) -> dict:
+    return {"kind": "float_codec", "type": type(ty).__name__, "route": route, **kw}
+
+
+def route_bytes(ty: Any, route: str, xs: list[float]) -> bytes:
+    """the payload bytes a constructor route produces for the parameters `xs`"""
+    from xdsl.dialects import builtin as b
+
+    if route == "pack":
+        return bytes(ty.pack(tuple(xs)))
+    if route == "pack_into":
+        size = ty.compile_time_size
+        buf = bytearray(b"\xAA" * (size * len(xs) + 2))
+        for k, x in enumerate(xs):
+            ty.pack_into(buf, 1 + k * size, x)
+        if buf[0] != 0xAA or buf[-1] != 0xAA:
+            raise ValueError("pack_into wrote outside its slot")
+        return bytes(buf[1:-1])
+    if route == "DenseArrayBase.from_list":
+        return bytes(b.DenseArrayBase.from_list(ty, xs).data.data)
+    if route == "DenseIntOrFPElementsAttr.from_list":
+        return bytes(b.DenseIntOrFPElementsAttr.from_list(b.TensorType(ty, [len(xs)]), xs).data.data)
+    if route == "DenseIntOrFPElementsAttr.from_list(splat)":
+        return bytes(b.DenseIntOrFPElementsAttr.from_list(b.TensorType(ty, [2]), xs[:1]).data.data)
+    raise core.InfraError(route)
+
+
+ROUTE_SITE = {
+    "pack": "{T}.pack", "pack_into": "{T}.pack_into",
+    "DenseArrayBase.from_list": "xdsl.dialects.builtin.DenseArrayBase.from_list",
+    "DenseIntOrFPElementsAttr.from_list": "xdsl.dialects.builtin.DenseIntOrFPElementsAttr.from_list",
+    "DenseIntOrFPElementsAttr.from_list(splat)": "xdsl.dialects.builtin.DenseIntOrFPElementsAttr.from_list",
+}
+
+
+def text_route_bytes(ty: Any, route: str, pats: list[int]) -> tuple[str, bytes]:
+    """(text, payload bytes) of the parser routes that take the elements as hexadecimal bit patterns"""
+    w = (ty.bitwidth + 3) // 4
+    lits = [f"0x{p:0{w}X}" for p in pats]
+    size = ty.compile_time_size
+    if route == "parse dense<[hex]>":
+        text = f"dense<[{', '.join(lits)}]> : tensor<{len(pats)}x{ty.name}>"
+    elif route == "parse dense<hex> splat":
+        text = f"dense<{lits[0]}> : tensor<2x{ty.name}>"
+    elif route == "parse array<T: hex>":
+        text = f"array<{ty.name}: {', '.join(lits)}>"
+    elif route == 'parse dense<"0x raw">':
+        text = f'dense<"0x{b"".join(p.to_bytes(size, "little") for p in pats).hex().upper()}"> : tensor<{len(pats)}x{ty.name}>'
+    else:
+        raise core.InfraError(route)
+    return text, bytes(parse_attr_fresh(text).data.data)
+
+
+def float_codec_leg(ctx: core.Ctx, quick: bool) -> None:
+    """All float types x {decode of bit patterns, encode of parameters} x every constructor route,
+    bit-exactly against harness/props/c08_floats.py.  Decoding is exhaustive for formats up to 16 bits
+    (8 bits in the quick tier + the whole exponent-all-ones region and the corner patterns of wider
+    ones); parameters: NaNs of both signs (quiet / signalling / high and low payload bits), infinities,
+    zeros, rounding midpoints and their neighbours, overflow threshold, random."""
+    from xdsl.dialects import builtin as b
+
+    for name, ty in builtin_float_types():
+        fmt = FC.FORMATS.get(ty.name)
+        if fmt is None or not rounds_on_construction(ty):
+            ctx.count("float_codec.types_without_independent_format")
+            continue
+        T = qual_type(ty)
+        if fmt.width != ty.bitwidth or fmt.size != ty.compile_time_size:
+            ctx.fail(T + ".bitwidth", "bit width differs from the format of that name",
+                     codec_case(ty, "bitwidth"), "bitwidth / size of the type differ from the format", {"bitwidth": ty.bitwidth, "size": ty.compile_time_size},
+                     {"bitwidth": fmt.width, "size": fmt.size})
+            continue
+        ctx.count("float_codec.types")
+        size = fmt.size
+        # ---- decode: unpack / iter_unpack of bit patterns
+        budget = (300 if fmt.width > 16 else 1 << 16) if not quick else (1 << 8 if fmt.width <= 8 else 1500)
+        pats = FC.interesting_patterns(fmt, ctx.rng, budget)
+        if fmt.width <= 16:   # the whole exponent-all-ones region (all NaNs / infinities) in every tier
+            top = fmt.maxe << fmt.m
+            pats = sorted(set(pats) | {(sg << (fmt.e + fmt.m)) | top | f for sg in ((0, 1) if fmt.has_sign else (0,)) for f in range(fmt.maxm + 1)})
+        ctx.count("float_codec.patterns", len(pats))
+        buf = b"".join(p.to_bytes(size, "little") for p in pats)
+        try:
+            vals = ty.unpack(buf, len(pats))
+            vals2 = tuple(ty.iter_unpack(buf))
+        except Exception as e:  # noqa: BLE001
+            ctx.fail(T + ".unpack", f"raises {core.exc_name(e)}", codec_case(ty, "unpack", patterns=[hex(p) for p in pats[:4]]),
+                     "decoding well-sized buffers raises", f"{core.exc_name(e)}: {e}"[:200], "a tuple of floats")
+            continue
+        dec_bad: set[int] = set()
+        for p, v, v2 in zip(pats, vals, vals2):
+            ctx.ev()
+            d = FC.decode(fmt, p)
+            vb = bits_of(v)
+            if not d.admits(vb):
+                dec_bad.add(p)
+                sig = ("NaN pattern decoded without its sign" if d.bits is not None and FC.is_nan64(d.bits) and FC.is_nan64(vb) and (d.bits ^ vb) >> 63 else
+                       "NaN pattern decoded with another payload" if d.bits is not None and FC.is_nan64(d.bits) and FC.is_nan64(vb) else
+                       "pattern decoded to a different value")
+                ctx.fail(T + ".unpack", sig, codec_case(ty, "unpack", pattern=hex(p)),
+                         f"{ty.name} bit pattern {p:#x} is decoded to another float than the format gives ({d.why})",
+                         {"unpack_f64_bits": hx(vb)}, {"f64_bits": hx(d.bits) if d.bits is not None else "a NaN"})
+            if bits_of(v2) != vb:
+                ctx.fail(T + ".iter_unpack", "iter_unpack differs from unpack", codec_case(ty, "iter_unpack", pattern=hex(p)),
+                         "the two decoders of one type disagree", {"unpack": hx(vb), "iter_unpack": hx(bits_of(v2))}, "same value")
+        # ---- encode: every route, per parameter
+        params = FC.interesting_parameters(fmt, ctx.rng, 60 if quick else 1500)
+        # parameters that are values of the type (so that hex / list routes can name them)
+        params += [bits_of(v) for p, v in zip(pats[:: max(1, len(pats) // (200 if quick else 4000))], vals[:: max(1, len(pats) // (200 if quick else 4000))])]
+        ctx.count("float_codec.parameters", len(params))
+        good: list[tuple[int, int]] = []   # (parameter bits, unique expected pattern)
+        for xb in params:
+            ctx.ev()
+            x = float_of(xb)
+            enc = FC.encode(fmt, xb)
+            got = own_pack(ty, x)
+            ok = (isinstance(got, str) and enc.raises == got) or (isinstance(got, int) and enc.raises is None and enc.admits(got))
+            if FC.is_nan64(xb) or xb & ((1 << 63) - 1) == 0 or FC.is_inf64(xb):
+                ctx.nt(("codec", ty.name, hx(xb)))
+            if not ok:
+                ctx.fail(T + ".pack", encoding_defect(fmt, xb, enc, got), codec_case(ty, "pack", param=hx(xb)),
+                         f"{ty.name}.pack of the Python float with binary64 pattern {hx(xb)} ({x!r}) is not the encoding the format gives ({enc.why})",
+                         {"pack": hex(got) if isinstance(got, int) else got},
+                         sorted(hex(q) for q in enc.pats)[:8] if enc.pats is not None else (enc.raises or FC.ANY))
+                continue
+            if isinstance(got, str):
+                continue
+            # the other routes must agree with pack (a difference is theirs), FloatAttr must hold decode(pattern)
+            for route in ("pack_into", "DenseArrayBase.from_list", "DenseIntOrFPElementsAttr.from_list", "DenseIntOrFPElementsAttr.from_list(splat)"):
+                try:
+                    rb = route_bytes(ty, route, [x, x] if "splat" not in route else [x])
+                    g2 = {int.from_bytes(rb[k:k + size], "little") for k in range(0, len(rb), size)} if len(rb) == 2 * size else {-1}
+                except Exception as e:  # noqa: BLE001
+                    g2 = core.exc_name(e)
+                if g2 != {got}:
+                    ctx.fail(ROUTE_SITE[route].format(T=T), f"payload differs from {ty.name}.pack of the same parameter" if not isinstance(g2, str) else f"raises {g2}",
+                             codec_case(ty, route, param=hx(xb)), f"route {route} stores other bytes for the parameter than the type's pack",
+                             {"route": sorted(hex(q) for q in g2) if not isinstance(g2, str) else g2, "pack": hex(got)}, hex(got))
+            if got not in dec_bad:
+                _, dec = FC.stored_after_construction(fmt, xb)
+                try:
+                    a = b.FloatAttr(x, ty)
+                    hb = bits_of(a.value.data)
+                except Exception as e:  # noqa: BLE001
+                    ctx.fail(FLOATATTR_INIT, f"raises {core.exc_name(e)}", codec_case(ty, "FloatAttr", param=hx(xb)), "construction raises although pack accepts the parameter",
+                             f"{core.exc_name(e)}: {e}"[:200], "an attribute")
+                    continue
+                if dec is not None and not dec.admits(hb):
+                    ctx.fail(FLOATATTR_INIT, "stored value is not decode(encode(parameter)) of the type's format", codec_case(ty, "FloatAttr", param=hx(xb)),
+                             "FloatAttr holds another value than the format gives for the parameter", {"held_f64_bits": hx(hb), "pack": hex(got)},
+                             hx(dec.bits) if dec.bits is not None else "a NaN")
+            if enc.exact is not None:
+                good.append((xb, got))
+        # ---- parser routes on bit patterns: list / splat / array literals re-encode the decoded value, the raw string keeps the bytes
+        sample = [p for p in pats if p not in dec_bad]
+        nanp = [p for p in sample if FC.is_nan_pattern(fmt, p)]
+        pick = (nanp[:: max(1, len(nanp) // 12)] + sample[:: max(1, len(sample) // 12)])[:30] if quick else (nanp[:: max(1, len(nanp) // 200)] + sample[:: max(1, len(sample) // 200)])
+        for k in range(0, len(pick), 2):
+            pp = pick[k:k + 2]
+            for route in ("parse dense<[hex]>", "parse dense<hex> splat", "parse array<T: hex>", 'parse dense<"0x raw">'):
+                ctx.ev()
+                if route.startswith('parse dense<"'):
+                    want = [frozenset({p}) for p in pp]
+                else:
+                    want = []
+                    for p in pp:
+                        d = FC.decode(fmt, p)
+                        e = FC.encode(fmt, d.bits) if d.bits is not None else FC.Enc(FC.nan_patterns(fmt))
+                        want.append(e.pats)
+                    if "splat" in route:
+                        want = [want[0], want[0]]
+                try:
+                    text, rb = text_route_bytes(ty, route, pp)
+                except Exception as e:  # noqa: BLE001
+                    ctx.count(f"float_codec.text_route_rejected.{core.exc_name(e)}")
+                    continue
+                gotp = [int.from_bytes(rb[j:j + size], "little") for j in range(0, len(rb), size)]
+                if len(gotp) != len(want) or any(w is not None and g not in w for g, w in zip(gotp, want)):
+                    # the type's own pack (root cause, reported at the type) or the route?
+                    src = pp if "splat" not in route else [pp[0], pp[0]]
+                    if not route.startswith('parse dense<"') and len(gotp) == len(src):
+                        own = []
+                        for p in src:
+                            d = FC.decode(fmt, p)
+                            own.append(own_pack(ty, float_of(d.bits)) if d.bits is not None else None)
+                        if all(o is None or o == g for o, g in zip(own, gotp)):
+                            for p, g, w in zip(src, gotp, want):
+                                d = FC.decode(fmt, p)
+                                if w is not None and g not in w and d.bits is not None:
+                                    enc = FC.encode(fmt, d.bits)
+                                    ctx.fail(T + ".pack", encoding_defect(fmt, d.bits, enc, g), codec_case(ty, "pack", param=hx(d.bits)),
+                                             f"{ty.name}.pack of the Python float with binary64 pattern {hx(d.bits)} is not the encoding the format gives ({enc.why})",
+                                             {"pack": hex(g), "seen_through": text}, sorted(hex(q) for q in enc.pats)[:8] if enc.pats is not None else FC.ANY)
+                            continue
+                    site = CONSTRUCTOR_OF["parse"]
+                    ctx.fail(site, f"{route.split(' ', 1)[1]}: payload is not the encoding of the literal's bit patterns",
+                             {"kind": "float_codec", "type": type(ty).__name__, "route": route, "text": text},
+                             "a dense / array literal given by hexadecimal bit patterns stores other bytes than the format gives",
+                             {"payload": [hex(g) for g in gotp]}, [sorted(hex(q) for q in w)[:4] if w is not None else FC.ANY for w in want])
+        # ---- the hand-written bf16 encoder against its Lean model (theorems bf16Encode_* of XdslProofs/C08.lean)
+        if ty.name == "bf16":
+            f32s = list(F32_PATTERNS) + [p << 16 for p in BF16_PATTERNS] + [(p << 16) | lo for p in BF16_PATTERNS for lo in (0x7FFF, 0x8000, 0x8001)]
+            f32s += [(sg << 31) | (0xFF << 23) | fr for sg in (0, 1) for fr in (1, 1 << 15, 1 << 16, 1 << 21, 1 << 22, (1 << 22) | 1, (1 << 23) - 1, 0x7FFF, 0x10000)]
+            f32s += [ctx.rng.getrandbits(32) for _ in range(300 if quick else 20000)]
+            f32s += [(ctx.rng.getrandbits(1) << 31) | (0xFF << 23) | ctx.rng.getrandbits(23) for _ in range(100 if quick else 5000)]
+            lines, impl = [], []
+            for f in f32s:
+                x = struct.unpack("<f", struct.pack("<I", f))[0]
+                got = own_pack(ty, x)
+                lines.append(f"bf16enc {f:x}")
+                impl.append(f"bits {got}" if isinstance(got, int) else f"raises {got}")
+            ctx.count("bf16_encoder_model_lines", len(lines))
+            model = ctx.model("attr_value", lines)
+            k = core.diff_streams(impl, model)
+            if k is not None:
+                ctx.mismatch("correspondence:C08/bf16_encode", {"kind": "model_lines", "lines": [lines[k]]}, impl[k], model[k],
+                             "BFloat16Type.pack differs from the Lean model bf16Encode of the encoder")
+        # ---- batch pack = concatenation
+        if good:
+            xs = [float_of(xb) for xb, _ in good]
+            try:
+                allb = bytes(ty.pack(tuple(xs)))
+            except Exception as e:  # noqa: BLE001
+                allb = None
+                ctx.fail(T + ".pack", f"raises {core.exc_name(e)} on a sequence of accepted parameters", codec_case(ty, "pack", params=[hx(xb) for xb, _ in good[:3]]),
+                         "pack of several values raises although each value alone is accepted", core.exc_name(e), "bytes")
+            if allb is not None and allb != b"".join(q.to_bytes(size, "little") for _, q in good):
+                ctx.fail(T + ".pack", "pack of a sequence is not the concatenation of the single encodings", codec_case(ty, "pack", params=[hx(xb) for xb, _ in good[:3]]),
+                         "pack(xs) differs from the concatenation of pack((x,))", None, None)
+
+
+# ---------------------------------------------------------------------------------------------
 # run / replay
 # ---------------------------------------------------------------------------------------------
 
@@ -1583,7 +2157,11 @@ def run(ctx: core.Ctx) -> None:
     for label, recs in float_type_groups(not quick):
         eval_group(ctx, label, recs, batch)
     flush()
-    for label, recs in op_groups(ctx.rng, 12 if quick else 400):
+    float_codec_leg(ctx, quick)
+    for label, recs in collision_attr_groups():
+        eval_group(ctx, label, recs, batch)
+    flush()
+    for label, recs in collision_op_groups(ctx, 40 if quick else 400) + op_groups(ctx.rng, 12 if quick else 400):
         eval_op_group(ctx, label, recs, batch)
     flush()
     legacy_selftest(ctx)
@@ -1612,6 +2190,86 @@ def run(ctx: core.Ctx) -> None:
     )
 
 
+def replay_codec(case: dict) -> int:
+    from xdsl.dialects import builtin as b
+
+    ty = getattr(b, case["type"])()
+    fmt = FC.FORMATS[ty.name]
+    route = case["route"]
+    size = ty.compile_time_size
+    bad = False
+    print(f"type {ty.name}: format e={fmt.e} m={fmt.m} bias={fmt.bias} nonfinite={fmt.nonfinite} nan={fmt.nan} (independent codec harness/props/c08_floats.py)")
+    if route == "bitwidth":
+        print(f"bitwidth {ty.bitwidth} size {size}; format {fmt.width} / {fmt.size}")
+        bad = fmt.width != ty.bitwidth or fmt.size != size
+    elif route in ("unpack", "iter_unpack"):
+        p = int(case["pattern"], 16)
+        raw = p.to_bytes(size, "little")
+        v, v2 = ty.unpack(raw, 1)[0], next(iter(ty.iter_unpack(raw)))
+        d = FC.decode(fmt, p)
+        print(f"pattern {p:#x}: unpack -> {v!r} bits {hx(bits_of(v))}; iter_unpack -> bits {hx(bits_of(v2))}; format: {hx(d.bits) if d.bits is not None else 'a NaN'} ({d.why})")
+        bad = not d.admits(bits_of(v)) or bits_of(v) != bits_of(v2)
+    elif route.startswith("parse "):
+        a = parse_attr_fresh(case["text"])
+        rb = bytes(a.data.data)
+        print(f"text {case['text']}\n  payload bytes {rb.hex()}  printed {describe(a)}")
+        lits = re.findall(r"0x([0-9A-Fa-f]+)", case["text"])
+        if route.startswith('parse dense<"'):
+            raw = bytes.fromhex(lits[0])
+            want = [frozenset({int.from_bytes(raw[k:k + size], "little")}) for k in range(0, len(raw), size)]
+        else:
+            want = []
+            for lit in lits:
+                d = FC.decode(fmt, int(lit, 16))
+                want.append((FC.encode(fmt, d.bits) if d.bits is not None else FC.Enc(FC.nan_patterns(fmt))).pats)
+            if "splat" in route:
+                want = [want[0]] * (len(rb) // size)
+        got = [int.from_bytes(rb[k:k + size], "little") for k in range(0, len(rb), size)]
+        print("  elements", [hex(g) for g in got], "format gives", [sorted(hex(q) for q in w)[:4] if w is not None else FC.ANY for w in want])
+        bad = len(got) != len(want) or any(w is not None and g not in w for g, w in zip(got, want))
+    else:
+        plist = [case["param"]] if "param" in case else case.get("params", [])
+        for ph in plist:
+            xb = int(ph, 16)
+            x = float_of(xb)
+            enc, dec = FC.stored_after_construction(fmt, xb)
+            got = own_pack(ty, x)
+            exp = sorted(hex(q) for q in enc.pats)[:8] if enc.pats is not None else (enc.raises or FC.ANY)
+            print(f"parameter {x!r} (binary64 {hx(xb)}): {ty.name}.pack -> {hex(got) if isinstance(got, int) else 'raises ' + got}; format gives {exp} ({enc.why})")
+            ok = (isinstance(got, str) and enc.raises == got) or (isinstance(got, int) and enc.raises is None and enc.admits(got))
+            bad |= not ok
+            if route in ROUTE_SITE and route != "pack" and isinstance(got, int):
+                try:
+                    rb = route_bytes(ty, route, [x, x] if "splat" not in route else [x])
+                    g2: Any = sorted({hex(int.from_bytes(rb[k:k + size], "little")) for k in range(0, len(rb), size)})
+                    bad |= g2 != [hex(got)]
+                except Exception as e:  # noqa: BLE001
+                    g2 = "raises " + core.exc_name(e)
+                    bad = True
+                print(f"  route {route}: elements {g2}")
+            try:
+                a = b.FloatAttr(x, ty)
+                hb = bits_of(a.value.data)
+                print(f"  FloatAttr holds bits {hx(hb)} printed {describe(a)}; format gives {hx(dec.bits) if dec is not None and dec.bits is not None else 'n/a'}")
+                if dec is not None:
+                    bad |= not dec.admits(hb)
+            except Exception as e:  # noqa: BLE001
+                print(f"  FloatAttr raises {core.exc_name(e)}")
+                bad |= enc.raises is None and route == "FloatAttr"
+        if len(plist) > 1:
+            xs = [float_of(int(ph, 16)) for ph in plist]
+            try:
+                allb = bytes(ty.pack(tuple(xs)))
+                one = b"".join(bytes(ty.pack((x,))) for x in xs)
+                print(f"  pack(all) {allb.hex()} ; concatenation {one.hex()}")
+                bad |= allb != one
+            except Exception as e:  # noqa: BLE001
+                print(f"  pack(all) raises {core.exc_name(e)}")
+                bad = True
+    print("property", "FAILS" if bad else "holds", "on this case")
+    return 1 if bad else 0
+
+
 def replay(ctx: core.Ctx, body: dict) -> int:
     case = body["case"]
     kind = case.get("kind")
@@ -1622,6 +2280,8 @@ def replay(ctx: core.Ctx, body: dict) -> int:
         if "a" not in case:
             return 1
     bad = False
+    if kind == "float_codec":
+        return replay_codec(case)
     if kind == "attr_value":
         for r in case.get("built_before", []):
             try:
@@ -1653,6 +2313,17 @@ def replay(ctx: core.Ctx, body: dict) -> int:
             print(f"      held value bits {hx(bits_of(have))} (type encoding {type_encoding(ty, have)}); "
                   f"type.unpack(type.pack(parameter)) bits {hx(bits_of(want))} (type encoding {type_encoding(ty, want)})")
             bad |= bits_of(have) != bits_of(want)
+        ind = independent_float(case["a"]) if case["a"][0] in ("float", "floattext") else None
+        if ind is not None:
+            ty, fmt, xb, enc, dec = ind
+            site, sig, obs = blame_float(ty, fmt, xb, enc, bits_of(a.value.data))
+            print(f"      independent codec of {fmt.name} (e={fmt.e} m={fmt.m} bias={fmt.bias}): parameter bits {hx(xb)} must encode as "
+                  f"{obs['independent_encoding']} ({enc.why}); {ty.name}.pack gives {obs['type.pack']}")
+            if dec is not None:
+                print(f"      must hold {hx(dec.bits) if dec.bits is not None else 'a NaN'}, holds {hx(bits_of(a.value.data))}")
+                bad |= not dec.admits(bits_of(a.value.data))
+            got = own_pack(ty, float_of(xb))
+            bad |= not ((isinstance(got, str) and enc.raises == got) or (isinstance(got, int) and enc.raises is None and enc.admits(got)))
         print("property", "FAILS" if bad else "holds", "on this case")
         return 1 if bad else 0
     if kind in ("op_pair", "op_triple"):
@@ -1704,6 +2375,13 @@ def replay(ctx: core.Ctx, body: dict) -> int:
                         print(f"      parameters encode in the type as {ea} / {eb}; held values encode as "
                               f"{type_encoding(xa[0], objs[x].value.data)} / {type_encoding(xb[0], objs[y].value.data)}")
                         bad |= e and (ea != eb or bits_of(xa[1]) != bits_of(xb[1]))
+                    ia = independent_float(case[x]) if case[x][0] in ("float", "floattext") else None
+                    ib = independent_float(case[y]) if case[y][0] in ("float", "floattext") else None
+                    if ia is not None and ib is not None and ia[1].name == ib[1].name and ia[4] is not None and ib[4] is not None:
+                        da, db = ia[4].bits, ib[4].bits
+                        print(f"      independent codec of {ia[1].name}: the attributes must hold {hx(da) if da is not None else 'a NaN'} / {hx(db) if db is not None else 'a NaN'}; "
+                              f"they hold {hx(bits_of(objs[x].value.data))} / {hx(bits_of(objs[y].value.data))}")
+                        bad |= bool(e) and da is not None and db is not None and da != db
                     if terms[x] is not None and terms[y] is not None:
                         m = ctx.model("attr_value", ["reset", "def " + terms[x], "def " + terms[y], "cmp 0 1"])
                         print(f"      lean model of the fixed semantics: {m[-1]}")
